@@ -802,6 +802,10 @@ func checkC08(c *Ctx) {
 	checkEventsCarryEndpoints(c, "R11", evtCh)
 	c.Rule("R12", "the stored endpoint list shares its array with queued add events: no nil is stored into one of its slots")
 	checkSharedEndpointArray(c, "R12")
+	c.Rule("R14", "a processor is built under the service name itself, the key the controller looks it up with")
+	checkProcessorKeepsServiceName(c, "R14")
+	c.Rule("R15", "the store learns of a new dependency before the subscription for it is made")
+	checkStoreLearnsBeforeSubscribe(c, "R15")
 	c.Rule("R13", "the store looks a service up and applies an update to it under one acquisition of its write lock")
 	checkLookupAndApplyAtomic(c, "R13")
 }
@@ -1170,4 +1174,107 @@ func checkLookupAndApplyAtomic(c *Ctx, rule string) {
 // chanOrMapField: the field a map (or channel) value was loaded from.
 func chanOrMapField(v ssa.Value) (*types.Var, ssa.Value) {
 	return loadedField(v)
+}
+
+// checkProcessorKeepsServiceName (C08.R14): the controller files a processor under the name the processor reports and
+// looks it up under the service name of every later event. proc.New therefore hands the service name on unchanged - a
+// name "normalised" on the way (dots replaced for the stats scope) makes every later event of that service miss its
+// processor: endpoint events are dropped, a configuration event starts a second processor next to the first, a
+// remove event leaves both running.
+func checkProcessorKeepsServiceName(c *Ctx, rule string) {
+	p := c.P
+	nw := p.Func(procPkg, "New")
+	if nw == nil || len(nw.Params) == 0 {
+		c.Unresolved(rule, "proc.New")
+		return
+	}
+	name := nw.Params[0]
+	n := 0
+	eachInstr(nw, func(_ *ssa.BasicBlock, _ int, in ssa.Instruction) {
+		st, ok := in.(*ssa.Store)
+		if !ok {
+			return
+		}
+		f, base := fieldAddr(st.Addr)
+		if f == nil || f.Name() != "Name" || !modType(base.Type(), procPkg, "BuildParams") {
+			return
+		}
+		n++
+		c.Check(stripConv(st.Val) == ssa.Value(name), rule, "proc.New builds the processor under the service name it was given", st.Pos(), "BuildParams.Name is the name parameter itself", "the processor is built under a name derived from the service name, not the service name itself: the controller files it under the name it reports and looks it up under the service name of later events - for a service whose name is changed by the derivation (a dot in it) every later event misses its processor: endpoint updates are dropped, a configuration update starts a second processor beside the first, a removal leaves them running")
+	})
+	if n == 0 {
+		c.Unresolved(rule, "proc.New does not fill BuildParams.Name")
+	}
+}
+
+// checkStoreLearnsBeforeSubscribe (C08.R15): the store ignores configuration and endpoint updates of services it does
+// not know. The dependency hook therefore tells the store about added services before it subscribes to them: with the
+// order reversed the first reply of a subscription can arrive before the store has registered the service, is
+// dropped, and is never sent again - that dependency never gets its add event.
+func checkStoreLearnsBeforeSubscribe(c *Ctx, rule string) {
+	p := c.P
+	sd := p.Func(configPkg, "(*discoveryClient).StreamDependencies")
+	if sd == nil {
+		c.Unresolved(rule, "(*discoveryClient).StreamDependencies")
+		return
+	}
+	n := 0
+	for _, fn := range withAnon(sd) {
+		// the function that subscribes: calls Subscribe of the per-service clients
+		var subs []ssa.Instruction
+		var hookCalls []ssa.Instruction
+		eachInstr(fn, func(_ *ssa.BasicBlock, _ int, in ssa.Instruction) {
+			cc := callOf(in)
+			if cc == nil {
+				return
+			}
+			if g := calleeFn(cc); g != nil && g.Name() == "Subscribe" {
+				subs = append(subs, in)
+				return
+			}
+			if cc.IsInvoke() && cc.Method.Name() == "Subscribe" {
+				subs = append(subs, in)
+				return
+			}
+			// a call of the caller's hook: a dynamic call of a value of the hook type that is not a builtin
+			if calleeFn(cc) == nil && !cc.IsInvoke() {
+				if _, isB := cc.Value.(*ssa.Builtin); !isB {
+					if sig, ok := cc.Value.Type().Underlying().(*types.Signature); ok && sig.Params().Len() == 2 {
+						hookCalls = append(hookCalls, in)
+					}
+				}
+			}
+		})
+		if len(subs) == 0 {
+			continue
+		}
+		for i, s := range subs {
+			n++
+			before := false
+			for _, h := range hookCalls {
+				// the hook call is on every path to the subscription, or skipped only when the hook is nil
+				if findPath(entryPos(fn), pathQuery{target: func(x ssa.Instruction) bool { return x == s }, avoid: func(x ssa.Instruction) bool { return x == h }, edge: func(b *ssa.BasicBlock, k int) bool {
+					iff, ok := b.Instrs[len(b.Instrs)-1].(*ssa.If)
+					if !ok {
+						return true
+					}
+					bo, ok := iff.Cond.(*ssa.BinOp)
+					if !ok || !isNilConst(bo.Y) {
+						return true
+					}
+					// the nil-hook edge is allowed to skip the call
+					if (bo.Op == token.NEQ && k == 1) || (bo.Op == token.EQL && k == 0) {
+						return h.Block() != b.Succs[1-k] && !b.Succs[1-k].Dominates(h.Block())
+					}
+					return true
+				}}) == nil {
+					before = true
+				}
+			}
+			c.Check(before, rule, fmt.Sprintf("%s subscription#%d follows the store's hook", fnKey(fn), i+1), s.Pos(), "the store is told about the dependency change before the subscription is made", "a service is subscribed before the store has been told that it is a dependency: the store ignores updates of services it does not know, so a reply that arrives first is dropped and never resent - the dependency never gets its add event and no processor is started for it")
+		}
+	}
+	if n == 0 {
+		c.Unresolved(rule, "the dependency hook does not subscribe")
+	}
 }
